@@ -625,9 +625,14 @@ pub fn check_written(text: &str, desc: &str, v: &mut Vec<Viol>) -> bool {
         v.push(Viol { sig: "C07:root".into(), what: format!("[{}] root element {:?}", desc, root.tag_name()) });
     }
     let mut ids: std::collections::HashMap<&str, usize> = Default::default();
+    // how many of the carriers of an id sit under <defs>, how many in the body
+    let mut ids_where: std::collections::HashMap<&str, (usize, usize)> = Default::default();
     for n in doc.descendants().filter(|n| n.is_element()) {
         if let Some(id) = n.attribute("id") {
             *ids.entry(id).or_insert(0) += 1;
+            let in_defs = n.ancestors().any(|a| a.is_element() && a.tag_name().name() == "defs");
+            let e = ids_where.entry(id).or_insert((0, 0));
+            if in_defs { e.0 += 1 } else { e.1 += 1 }
         }
     }
     for n in doc.descendants().filter(|n| n.is_element()) {
@@ -650,7 +655,10 @@ pub fn check_written(text: &str, desc: &str, v: &mut Vec<Viol>) -> bool {
                 match ids.get(r).copied().unwrap_or(0) {
                     1 => {}
                     0 => v.push(Viol { sig: format!("C07:dangling-reference:{}@{}", name, tag), what: format!("[{}] <{} {}=\"{}\"> refers to no element of the written text", desc, tag, name, val) }),
-                    k => v.push(Viol { sig: format!("C07:ambiguous-reference:{}@{}", name, tag), what: format!("[{}] <{} {}=\"{}\"> refers to {} elements with that id", desc, tag, name, val, k) }),
+                    k => {
+                        let (d, b) = ids_where.get(r).copied().unwrap_or((0, 0));
+                        v.push(Viol { sig: format!("C07:ambiguous-reference:{}@{}:defs{}+body{}", name, tag, d.min(3), b.min(3)), what: format!("[{}] <{} {}=\"{}\"> refers to {} elements with that id ({} under defs, {} in the body)", desc, tag, name, val, k, d, b) })
+                    }
                 }
             }
             let numeric = NUMERIC_ATTRS.contains(&name) || matches!(name, "points" | "tableValues" | "kernelMatrix" | "values" | "order" | "targetX" | "targetY" | "numOctaves" | "radius" | "azimuth" | "elevation" | "z" | "pointsAtX" | "pointsAtY" | "pointsAtZ" | "limitingConeAngle" | "kernelUnitLength" | "startOffset" | "textLength" | "rotate");
